@@ -442,6 +442,13 @@ def run_kani_ob(build, ob, playback=False):
     cmd += ["--solver", ob.get("solver", "kissat"), "--default-unwind", str(ob.get("default_unwind", 70)), "--no-assertion-reach-checks"]
     if playback:
         cmd += ["-Z", "concrete-playback", "--concrete-playback=print"]
+    if ob.get("unwindset"):
+        us = unwindset_args(build, ob, cmd, tmpd)
+        if us is None:
+            shutil.rmtree(tmpd, ignore_errors=True)
+            return {"id": ob["id"], "backend": ob["backend"], "status": "undecided", "seconds": 0, "checks": 0, "failed": [],
+                    "reason": "lost anchor: loops named in the obligation's unwindset not found in the harness", "cmd": " ".join(cmd)}
+        cmd += ["--cbmc-args", "--unwindset", us]
     rc, out, dt, to = run_cmd(cmd, build.repo, build.env(tmpd), ob.get("timeout", 900) * (2 if playback else 1),
                               ob.get("mem_gb", 14))
     shutil.rmtree(tmpd, ignore_errors=True)
@@ -456,6 +463,33 @@ def run_kani_ob(build, ob, playback=False):
     if playback:
         res["playback"] = parse_playback(out)
     return res
+
+
+def unwindset_args(build, ob, cmd, tmpd):
+    """Per-loop unwinding bounds for the loops of the REAL function under contract (the harness's
+    own loops keep the global #[kani::unwind]).  ob["unwindset"] = [(function substring, loop index
+    within that function, bound)].  Loop ids are read from the harness's goto binary."""
+    import glob
+    short = ob["harness"].split("::")[-1]
+    pat = os.path.join(build.repo, "target", "kani", "*", "debug", "build", "*", "*", "out", "*[0-9]%s.out" % short)
+    files = glob.glob(pat)
+    if not files:
+        # the per-harness goto binary is produced by the first driver run; make one that stops at once
+        run_cmd(cmd + ["--cbmc-args", "--show-loops"], build.repo, build.env(tmpd), 600, 8)
+        files = glob.glob(pat)
+    if not files:
+        return None
+    f = max(files, key=os.path.getmtime)
+    pr = subprocess.run(["cbmc", "--show-loops", f], capture_output=True, text=True, timeout=300)
+    loops = re.findall(r"^Loop (\S+)\.(\d+):\n\s+file (\S+) line (\d+).*? function (.*)$", pr.stdout, re.M)
+    args = []
+    for fsub, idx, bound in ob["unwindset"]:
+        hit = [l for l in loops if fsub in l[4] and int(l[1]) == idx]
+        if not hit:
+            return None
+        for l in hit:
+            args.append("%s.%s:%d" % (l[0], l[1], bound))
+    return ",".join(args)
 
 
 RE_PB = re.compile(r"let concrete_vals: Vec<Vec<u8>> = vec!\[(.*?)\n\s*\];", re.S)
